@@ -173,6 +173,17 @@ CLAIMED['C04'] = dict(
          'interpretation-table self-test and inherited by chi through pointwise equality; numeric leaves are not TLC\'s',
     technique='TLA+ spec (ErrorModel.tla) model-checked with TLC; spec->code replay of every enumerated case',
     design='6/C04')
+CLAIMED['C12'] = dict(
+    engine='Filters',
+    text='TLC explores every history of sort_times calls and checks that the deferred order kept by a composed filter pairs '
+         'every original time point with its own simulated column and returns sensitivities in input order (the overwrite '
+         'variant is refuted). Every history is replayed on plain and composed filters of all five kinds with seeded data '
+         '(missing values included): value and sensitivities against the documented estimator and density and their exact '
+         'derivatives, invariance under padding with missing values, permuting individuals, re-ordering and splitting time '
+         'points.',
+    note='documented formulas are the oracle (typed independently); numeric comparison 1e-9 / 1e-7; bounded sizes',
+    technique='TLA+ spec (Filters.tla) model-checked with TLC; spec->code replay of every enumerated history on 5 filter kinds',
+    design='6/C12')
 
 NOT_YET = {
 }
